@@ -103,3 +103,24 @@ package commitment
 //@   ensures err == nil && old(p.Discrepancy) && result0.Commitment != nil ==> 2 * NVotedFor(old(p.Discrepancy), c, result0, len(c.Members), VoteOf(result0.Commitment)) > NCounted(old(p.Discrepancy), c, len(c.Members))
 //@   loop 1 invariant p.Discrepancy && p.HighestRank == old(p.HighestRank)
 //@   loop 1 invariant forall r uint64 :: visited(r) && inDom(p.SchedulerCommitments, r) ==> r == p.HighestRank
+
+// ---- admission of a commitment (C11): for the round being finalized, on the current block, signed by its node ----
+
+//@ import "github.com/oasisprotocol/oasis-core/go/roothash/api/block"
+
+//@ func ComputeResultsHeader.IsParentOf
+//@   props C11
+//@   requires h != nil && child != nil
+//@   modifies nothing
+//@   ensures result == (h.Round == child.Round + 1 && h.PreviousHash == ufr[hash.Hash]("blockHeaderHash", child))
+//@   note a commitment's header extends a block only as its immediate successor round, with the block's encoded hash as previous hash
+
+//@ func VerifyExecutorCommitment
+//@   props C11
+//@   requires blk != nil && rt != nil && commit != nil
+//@   precall commitment\.ComputeResultsHeader\)\.IsParentOf$ :: argIs(0, &blk.Header) && GCommitVerifyOK > old(GCommitVerifyOK)
+//@   ensures err == nil ==> GParentOfTrue > old(GParentOfTrue) && GCommitVerifyOK > old(GCommitVerifyOK)
+//@   note a commitment is admitted only after its signature verified (ExecutorCommitment.Verify returned nil) and only if its header is the immediate successor of the runtime's current block (IsParentOf(&blk.Header) returned true)
+
+//@ ghost var GParentOfTrue int
+//@ ghost var GCommitVerifyOK int
